@@ -137,7 +137,8 @@ class TokenParser(Parser):
 
         factory = self.cstruct._make_flag if enumtype == "flag" else self.cstruct._make_enum
 
-        enum = factory(d["name"] or "", self.cstruct.resolve(d["type"]), values)
+        # A type name of several words is known by its words separated by single spaces
+        enum = factory(d["name"] or "", self.cstruct.resolve(" ".join(d["type"].split())), values)
         if not enum.__name__:
             self.cstruct.consts.update(enum.__members__)
         else:
